@@ -13,9 +13,10 @@ LEVEL = "model_checking"
 def run(ctx):
     fmt_common.run_prop(
         ctx, "c20",
-        ["Layout_c20_quick_gap1.cfg", "Layout_c20_quick_gap2.cfg", "Layout_c20_quick_expr.cfg", "Layout_c20_quick_cm.cfg"],
+        ["Layout_c20_quick_gap1.cfg", "Layout_c20_quick_gap2.cfg", "Layout_c20_quick_expr.cfg", "Layout_c20_quick_cm.cfg",
+         "Layout_c20_quick_kv.cfg"],
         ["Layout_c20_thorough_gap1.cfg", "Layout_c20_thorough_gap2.cfg", "Layout_c20_thorough_expr.cfg",
-         "Layout_c20_thorough_cm.cfg"])
+         "Layout_c20_thorough_cm.cfg", "Layout_c20_quick_kv.cfg"])
     ctx.rule = ("every presentation of the cfg's trees: base layout in {canon, tight, wide, one-line, newline-wherever-legal} x every "
                 "legal deviation of one (two) gaps to none / blank / newline / blank line x comment placements; "
                 "distinct/non-trivial = distinct (tree, layout skeleton); plus every corpus file that parses (counted separately)")
